@@ -434,6 +434,20 @@ def handle (toks : List String) (impl : String) : Verdict :=
     -- schedule must end with the connection closed and every request resolved
     let malformedDelivered : Bool :=
       password.isNone && f.greetClean && (Spec.refDecode (body.length + 2) {} body).any (· == .malformed)
+    -- C01 after invalid data: whatever a caller is still handed as a reply is one of the complete
+    -- responses the reference decoder finds in the delivered stream before the first line outside
+    -- the grammar — never something assembled from what was left of a rejected reply
+    let wellFormedBefore : List String :=
+      (Spec.refDecode (body.length + 2) {} body).filterMap fun it =>
+        match it with
+        | .resp frames none => some s!"ok:{fmtFrames frames}"
+        | .resp frames (some e) =>
+          some s!"ack:{e.code}:{e.index}:{match e.command with | none => "~" | some c => hex c}:{hex e.message}:{fmtFrames frames}"
+        | _ => none
+    let inventedReply : Option Nat :=
+      if !malformedDelivered then none else
+      f.results.findSome? fun (rid, res) =>
+        if (res.startsWith "ok:" || res.startsWith "ack:") && !(wellFormedBefore.contains res) then some rid else none
     -- C13 framing, seen from the server: a typed list of n >= 2 commands arrived as one command list
     -- holding exactly the n `echo` lines in order, a list of one command as that bare command
     let typedFramingBad : Option Nat :=
@@ -480,6 +494,7 @@ def handle (toks : List String) (impl : String) : Verdict :=
       else if on "C05" && honest && connectedOk && password.isNone && !(startsWith f.writes (str "idle\n")) && !f.writes.isEmpty then "fail:C05-first-write-not-idle"
       else if on "C18" && password.isSome && !f.writes.isEmpty && !(startsWith f.writes (password.getD [])) then "fail:C18-password-not-first"
       else if on "C18" && (match f.connect with | some "badpw" => f.writes != password.getD [] | _ => false) then "fail:C18-wrote-after-rejected-password"
+      else if on "C01" && inventedReply.isSome then s!"fail:C01-reply-the-server-never-sent-{inventedReply.getD 0}"
       else match checkResults with
       | some e =>
         if (e.startsWith "fail:C01" && on "C01") || (e.startsWith "fail:C17" && on "C17") ||
